@@ -129,16 +129,17 @@ func (g *gctx) dollarRef() Seg {
 // genRef draws a reference: mostly to a defined row with index >= minIdx, but
 // also to ring members (cycles), undefined rows, '$' names, unknown schemes.
 func (g *gctx) genRef(minIdx int) Seg {
-	switch k := rapid.IntRange(0, 39).Draw(g.t, "refkind"); {
-	case k == 0 && len(g.ring) > 0, k == 1 && len(g.ring) > 0:
+	// the failing kinds are rare per reference: a case holds many references and one failure decides it
+	switch {
+	case len(g.ring) > 0 && oneIn(g.t, "toring", 3):
 		return g.refTo(rapid.SampledFrom(g.ring).Draw(g.t, "ringmember"), true)
-	case k == 2:
+	case oneIn(g.t, "undefined", 6):
 		return g.refTo("aa:undefined"+strconv.Itoa(rapid.IntRange(0, 2).Draw(g.t, "undef")), true)
-	case k == 3, k == 4:
+	case oneIn(g.t, "dollarname", 5):
 		return g.dollarRef()
-	case k == 5:
+	case oneIn(g.t, "badscheme", 6):
 		return Seg{K: "ref", Scheme: rapid.SampledFrom([]string{"zz", "a", "file"}).Draw(g.t, "badscheme"), Name: []Seg{lit("x")}}
-	case k == 6 && !g.def:
+	case !g.def && oneIn(g.t, "nsref", 4):
 		// no default scheme: ${NAME} is plain text
 		return Seg{K: "ref", Name: []Seg{lit(rapid.SampledFrom([]string{"x", "HOME", "1", "a b", ""}).Draw(g.t, "nsname"))}}
 	}
